@@ -18,6 +18,7 @@ mod c03;
 mod c03m7;
 mod c03srv;
 mod routes;
+mod route_table;
 mod routes_gen;
 mod c02;
 mod c11;
